@@ -26,3 +26,15 @@ Lemma get_filtered_expressions : forall tag comp simple istart iend start end_,
     C16Gen.gf_skip_tag tag comp || C16Gen.gf_skip_time istart iend start end_ = gf_skip tag comp istart iend start end_
     /\ C16Gen.gf_matched simple istart iend start end_ = gf_matched simple istart iend start end_.
 Proof. intros. split; [apply Gen_gf_skip_eq|apply Gen_gf_matched_eq]. Qed.
+
+(* Case folding of the comp-filter name attribute: the three places that read it (comp_match, and the two of
+   simplify_prefilters) all apply str.upper(), as the model does -- hence they agree on every spelling. *)
+Lemma Gen_name_sites_eq : forall n,
+    C16Gen.comp_match_name n = Folded (upper n)
+    /\ C16Gen.prefilter_col_name n = Folded (upper n)
+    /\ C16Gen.prefilter_tag_name n = Folded (upper n).
+Proof. intros n. repeat split; reflexivity. Qed.
+
+Lemma name_sites_agree : forall n,
+    C16Gen.comp_match_name n = C16Gen.prefilter_tag_name n /\ C16Gen.comp_match_name n = C16Gen.prefilter_col_name n.
+Proof. intros n. destruct (Gen_name_sites_eq n) as (H1 & H2 & H3). rewrite H1, H2, H3. split; reflexivity. Qed.
